@@ -37,8 +37,18 @@ def log(*a):
     print(*a, file=sys.stderr, flush=True)
 
 
+def _big_stack():
+    # coqc recurses on long string literals (generated files hold whole generated texts): lift the stack limit
+    try:
+        import resource
+        _, hard = resource.getrlimit(resource.RLIMIT_STACK)
+        resource.setrlimit(resource.RLIMIT_STACK, (hard, hard))
+    except Exception:
+        pass
+
+
 def run(cmd, cwd=None, env=None, timeout=None, input=None):
-    p = subprocess.run(cmd, cwd=cwd, env=env, timeout=timeout, input=input,
+    p = subprocess.run(cmd, cwd=cwd, env=env, timeout=timeout, input=input, preexec_fn=_big_stack,
                        stdout=subprocess.PIPE, stderr=subprocess.STDOUT, text=True, errors="replace")
     return p.returncode, p.stdout
 
